@@ -157,7 +157,11 @@ def sec_interpolation(chk):
 
 def _exact_los(arr, dist, start, end):
     """exact integral of the piecewise-constant field (pixel i centred on i*d, cell [(i-1/2)d, (i+1/2)d)) along the segment"""
-    shape = arr.shape
+    return float(np.sum(_exact_weights(arr.shape, dist, start, end) * arr))
+
+
+def _exact_weights(shape, dist, start, end):
+    """length of the segment's crossing of every cell"""
     d = np.asarray(dist, dtype=float)
     v = end - start
     ts = [0., 1.]
@@ -171,13 +175,13 @@ def _exact_los(arr, dist, start, end):
                     ts.append(t)
     ts = np.unique(ts)
     L = np.linalg.norm(v)
-    tot = 0.
+    out = np.zeros(shape)
     for a, b in zip(ts[:-1], ts[1:]):
         mid = start + 0.5 * (a + b) * v
         idx = tuple(int(np.floor(mid[k] / d[k] + 0.5)) for k in range(len(shape)))
         if all(0 <= idx[k] < shape[k] for k in range(len(shape))):
-            tot += arr[idx] * (b - a) * L
-    return tot
+            out[idx] += (b - a) * L
+    return out
 
 
 def sec_los(chk):
@@ -207,7 +211,20 @@ def sec_los(chk):
                 i = int(np.argmax(np.abs(got - want) / tol))
                 fails.append(dict(case=f"LOSResponse on grid {shape}, distances {dist}: line {i} gives {got[i]!r}, the exact line integral is {want[i]!r}",
                                   detail=f"start {starts[:, i].tolist()} end {ends[:, i].tolist()}"))
-            const = ift.LOSResponse(dom, starts, ends)(ift.full(dom, 1.)).asnumpy()
+            # by linearity the response is its weight matrix: every entry (line, pixel) is the length of the line's crossing of the pixel
+            op = ift.LOSResponse(dom, starts, ends)
+            for i in range(nlos):
+                e = np.zeros(nlos)
+                e[i] = 1.
+                row = op.adjoint_times(ift.makeField(op.target, e)).asnumpy()
+                wex = _exact_weights(shape, dist, starts[:, i], ends[:, i])
+                L = np.linalg.norm(ends[:, i] - starts[:, i])
+                if np.any(np.abs(row - wex) > 4e-7 * L + 1e-12):
+                    j = np.unravel_index(int(np.argmax(np.abs(row - wex))), shape)
+                    fails.append(dict(case=f"LOSResponse on grid {shape}, distances {dist}: weight of pixel {tuple(int(q) for q in j)} on line {i} is {row[j]!r}, the crossing length is {wex[j]!r}",
+                                      detail=f"start {starts[:, i].tolist()} end {ends[:, i].tolist()}"))
+                    break
+            const = op(ift.full(dom, 1.)).asnumpy()
             if not np.allclose(const, np.linalg.norm(ends - starts, axis=0), rtol=4e-7):
                 fails.append(dict(case=f"LOSResponse on {shape}: the integral of the constant field 1 is not the length of the line", detail=""))
     chk.bounded("LOSResponse against the exact line integral of the piecewise-constant field (cell crossings)", bound=f"{cases} (grid, 6 lines) cases on 1-3-D grids incl. non-cubic, 4e-7 relative to |line| max|x| (the code's end-point offset)",
